@@ -809,6 +809,72 @@ func callerOwnedDescriptorList() {
 	}
 }
 
+// prefixStringKeys: string keys where one is the head of another (and the empty key): the natural order of
+// ComparableString keys is the order of the strings. All lists of up to 3 rows over the keys "", "A", "AB",
+// "ABC", "B", "AC"; the string key first or as a tie-breaker; both directions; field-name and transformer form.
+func prefixStringKeys() {
+	keys := []string{"", "A", "AB", "ABC", "B", "AC"}
+	var lists [][]Row
+	var gen func(cur []Row, n int)
+	gen = func(cur []Row, n int) {
+		if len(cur) == n {
+			l := append([]Row{}, cur...)
+			for i := range l {
+				l[i].Tag = i
+			}
+			lists = append(lists, l)
+			return
+		}
+		for _, k := range keys {
+			gen(append(cur, Row{K1: fpgo.NewComparableOrdered(0), K2: fpgo.NewComparableString(k)}), n)
+		}
+	}
+	for n := 2; n <= 3; n++ {
+		gen(nil, n)
+	}
+	for _, form := range []string{"field", "transformer"} {
+		for _, asc := range []bool{true, false} {
+			for _, tie := range []bool{false, true} {
+				b := fpgo.NewSortDescriptorsBuilder[Row]()
+				if tie {
+					b = b.ThenWithFieldName("K1", true) // K1 is 0 in every row: the string key decides everything
+				}
+				if form == "field" {
+					b = b.ThenWithFieldName("K2", asc)
+				} else {
+					b = b.ThenWithTransformerFunctor(func(x Row) fpgo.Comparable[interface{}] { return x.K2 }, asc)
+				}
+				for _, in := range lists {
+					inputs++
+					evals++
+					l := append([]Row{}, in...)
+					var out []Row
+					if p := lib.Catch(func() { out = b.ToSortedList(l...) }); p != "" {
+						bad("ToSortedList", "panic|prefix-keys", "string keys %s: %s", renderRows(in), p)
+						continue
+					}
+					ok := len(out) == len(in)
+					for i := 0; ok && i+1 < len(out); i++ {
+						c := strings.Compare(out[i].K2.Val, out[i+1].K2.Val)
+						if !asc {
+							c = -c
+						}
+						ok = c <= 0
+					}
+					if !ok {
+						var ks []string
+						for _, x := range out {
+							ks = append(ks, fmt.Sprintf("%q", x.K2.Val))
+						}
+						bad("ToSortedList", "lexicographic|string-key-is-head-of-another", "rows sorted by the string key (%s descriptor, ascending=%v, as tie-breaker=%v) come out as %v", form, asc, tie, ks)
+						break
+					}
+				}
+			}
+		}
+	}
+}
+
 func missingKeys(maxLen int) {
 	keyOf := func(k byte) func(x MRow) fpgo.Comparable[interface{}] {
 		return func(x MRow) fpgo.Comparable[interface{}] {
@@ -1061,6 +1127,7 @@ func main() {
 	mixedDynamicTypes()
 	missingKeys(rowLen)
 	callerOwnedDescriptorList()
+	prefixStringKeys()
 	// once more in the same process, after every record type, field name and stack has been sorted once (a
 	// descriptor's meaning must not depend on what was sorted before); the row lists one element shorter
 	skipLongRows = true
